@@ -26,6 +26,23 @@ def generate(rng, tier, shard, nshards):
                 for ctx in fam.strings(g.V, 2):
                     yield gops.event("mask", {"sr": "Bool", "G": G, "ctx": [str(x) for x in ctx], "alg": alg},
                                      site=f"BoolCFGLM[{alg}].p_next", feat="ring/" + fam.feature_key(g))
+    for gi in range(6 if tier == "quick" else 40):
+        # two unary cycles joined by a bridge; integer (byte) terminals with a vocabulary larger than what the rules use
+        if gi % 2 == 0:
+            g = fam.rand_cfg(rng, gops.SR["Bool"], shape="twocycles")
+            ft = "twocycles"
+        else:
+            Vint = tuple(range(1, 40))          # a dense byte-like vocabulary; the rules use only its smallest symbols
+            g = fam.rand_cfg(rng, gops.SR["Bool"], shape="any", nN=rng.choice([3, 4, 5]), nrules=rng.choice([4, 6]), V=Vint[:2])
+            g.add(gops.us.mk(g.R, 1), g.S, 1, g.S)
+            g.add(gops.us.mk(g.R, 1), g.S, 2)
+            g.V |= set(Vint)
+            ft = "int-terminals-unused-vocabulary"
+        G, _ = cfg_proj(g)
+        for alg in ("earley", "cky"):
+            for ctx in fam.strings(sorted(g.V)[:3], 2):
+                yield gops.event("mask", {"sr": "Bool", "G": G, "ctx": gops.seq(ctx), "alg": alg, "names": "str"},
+                                 site=f"BoolCFGLM[{alg}].p_next", feat=ft + "/" + fam.feature_key(g))
     n = 14 if tier == "quick" else 140
     L = 3 if tier == "quick" else 4
     for gi in range(n):
